@@ -336,87 +336,27 @@ def _check(ctx, run, flags=(), label="default"):
             got = "unknown: %s" % u
         want = 1 if (fc > 0 or rc + ic == 0) else 0
         run.ob("R4", "isFailure(failures=%d, run=%d, ignored=%d)%s" % (fc, rc, ic, sfx), isf.site, got == want, witness={"folded": got, "oracle": want})
+    from .shared import runner_fold
     rt = prog.fn("CommandLineTestRunner::runAllTests")
     run.analysed(rt)
-    loops = loop_blocks(rt)
-    decl = [n for n in rt.walk() if n["k"] == "DeclStmt" and any(d.get("ct") == "TestResult" for d in n.get("decls", []))]
-    run_calls = [c for c in rt.calls() if render(rt, c).startswith("registry_->runAllTests(")]
-    ok = len(run_calls) == 1 and rt.where_enclosing(run_calls[0])[0] in loops
-    trname = render(rt, rt.args(run_calls[0])[0]) if run_calls else None
-    d_in = [n for n in decl if any(d["name"] == trname for d in n["decls"]) and rt.where_enclosing(n) and rt.where_enclosing(n)[0] in loops]
-    run.ob("R4", "each repetition runs the registry once on a TestResult constructed inside the repetition loop%s" % sfx, rt.site, ok and len(d_in) == 1,
-           witness={"result": trname, "declared_in_loop": len(d_in)}, what="" if ok and len(d_in) == 1 else "counts of earlier repetitions leak into later summaries")
-    # accumulators: identified by what is added to them, not by their names
-    acc_fail, acc_exec, other_writes = None, None, []
-    for n in rt.walk():
-        if n["k"] in ("CompoundAssignOperator", "BinaryOperator") and n.get("op") in ("+=", "=") and rt.where_enclosing(n) and rt.where_enclosing(n)[0] in loops:
-            lhs = render(rt, rt.node(n["lhs"]))
-            rhs = rx(rt, rt.node(n["rhs"]))
-            if "%s.getFailureCount()" % trname in rhs and (n["op"] == "+=" or rhs in ("(%s + %s.getFailureCount())" % (lhs, trname), "(%s.getFailureCount() + %s)" % (trname, lhs))):
-                acc_fail = lhs
-    for p in enumerate_paths(rt):
-        if origin_val(rt, p).get("%s.isFailure()" % trname) is True:
-            for n in trace_nodes(rt, p):
-                d = delta_of(rt, n)
-                if d and d[1] == 1 and rt.where_enclosing(n) and rt.where_enclosing(n)[0] in loops and d[0] != acc_fail:
-                    # the loop counter is incremented on every path; the execution counter only on failing ones
-                    acc_exec = d[0] if acc_exec is None or d[0] == acc_exec else acc_exec
-                    cand = d[0]
-    # disambiguate from the loop counter: the execution counter is NOT incremented on passing repetitions
-    cands = {}
-    for p in enumerate_paths(rt):
-        ov = origin_val(rt, p)
-        isf = ov.get("%s.isFailure()" % trname)
-        if isf is None:
-            continue
-        for n in trace_nodes(rt, p):
-            d = delta_of(rt, n)
-            if d and d[1] == 1 and rt.where_enclosing(n) and rt.where_enclosing(n)[0] in loops:
-                cands.setdefault(d[0], set()).add(isf)
-    acc_exec = next((v for v, ss in sorted(cands.items()) if ss == {True} and v != acc_fail), None)
-    run.ob("R4", "failure accumulators: one grows by the repetition's failure count, one by 1 per failed repetition%s" % sfx, rt.site, acc_fail is not None and acc_exec is not None,
-           witness={"failures": acc_fail, "failed_repetitions": acc_exec}, what="" if acc_fail and acc_exec else "the accumulators of the exit value are not fed from getFailureCount() / isFailure()")
-    for acc in (acc_fail, acc_exec):
-        if acc is None:
-            continue
-        bad = []
-        for n in rt.walk():
-            if n["k"] in ("CompoundAssignOperator", "BinaryOperator", "UnaryOperator") and (n.get("op", "").endswith("=") and n.get("op") not in ("==", "!=", "<=", ">=") or n.get("op") in ("++", "--")):
-                tgt = render(rt, rt.node(n["lhs"])) if n.get("lhs") is not None else render(rt, n["c"][0])
-                if tgt != acc:
-                    continue
-                d = delta_of(rt, n)
-                grows = (d is not None and d[1] > 0) or (n["k"] != "UnaryOperator" and "%s.getFailureCount()" % trname in rx(rt, rt.node(n["rhs"])) and (n["op"] == "+=" or acc in rx(rt, rt.node(n["rhs"]))))
-                if not grows:
-                    bad.append(render(rt, n))
-        run.ob("R4", "accumulator %s only grows inside the run%s" % (acc, sfx), rt.site, not bad, witness=bad or "monotone", what="" if not bad else "a later repetition can overwrite an earlier failure")
-    for p in enumerate_paths(rt):
-        ov = origin_val(rt, p)
-        isfv = ov.get("%s.isFailure()" % trname)
-        if isfv is None or acc_exec is None:
-            continue
-        inc = deltas_on_path(rt, p, acc_exec)
-        run.ob("R4", "failed repetition counted iff isFailure() [%s]%s" % (short(p.describe(rt), 70), sfx), rt.site, inc == ([1] if isfv else []), witness=inc)
-    # exit value: fold from the first block after the repetition loop
-    heads = [b_ for b_ in rt.blocks.values() if b_["id"] in loops and b_.get("cond") is not None and len(b_["succ"]) == 2 and any(s_ is not None and s_ not in loops for s_ in b_["succ"])]
-    after = None
-    for h_ in heads:
-        for s_ in h_["succ"]:
-            if s_ is not None and s_ not in loops:
-                after = s_
-    if after is None or acc_fail is None or acc_exec is None:
-        run.ob("R4", "exit value folded from the accumulators%s" % sfx, rt.site, False, what="repetition loop exit or accumulators not identified")
-    else:
-        for a_, b_ in itertools.product((0, 3), (0, 2)):
-            ev = Evaluator(prog, rt, env={acc_fail: a_, acc_exec: b_})
-            try:
-                ev.run_blocks(after, max_steps=200)
-                got = getattr(ev, "ret", None)
-            except Unknown as u:
-                got = "unknown: %s" % u
-            want_zero = (a_ == 0 and b_ == 0)
-            run.ob("R4", "exit value for (failed tests=%d, failed repetitions=%d) is %s%s" % (a_, b_, "zero" if want_zero else "non-zero", sfx), rt.site,
-                   isinstance(got, int) and ((got == 0) == want_zero), witness={"folded": got})
+    OUTCOMES = [(0, 0), (2, 1), (0, 1)]      # (failure count, isFailure): passed / failed checks / failed without a failure (nothing ran)
+    try:
+        for nrep in (1, 2, 3):
+            for reps in itertools.product(OUTCOMES, repeat=nrep):
+                r, events = runner_fold(prog, list(reps))
+                total = sum(fc for fc, isf in reps)
+                want_zero = all(x == (0, 0) for x in reps)
+                runs = [e for e in events if e[0] in ("new-result", "runAllTests")]
+                why = ""
+                if runs != [("new-result",), ("runAllTests",)] * nrep:
+                    why = "repetitions run as %s; expected one fresh TestResult and one registry run per repetition (counts of earlier repetitions leak into later summaries)" % [e[0] for e in runs]
+                elif not isinstance(r, int) or (r == 0) != want_zero:
+                    why = "exit value %s for repetitions %s: it must be zero exactly when every repetition passed" % (r, list(reps))
+                elif total and r != total:
+                    why = "exit value %s, the repetitions recorded %d failures" % (r, total)
+                run.ob("R4", "runner folded over repetitions %s%s: fresh result per repetition, exit value zero iff all passed" % (list(reps), sfx), rt.site, not why, witness={"returns": r}, what=why)
+    except Unknown as u:
+        run.broke("C01.R4: the runner cannot be folded%s: %s" % (sfx, u))
     pe = prog.fn("TestOutput::printTestsEnded")
     run.analysed(pe)
     LABELS = [("getTestCount", " tests, ", 101), ("getRunCount", " ran, ", 102), ("getCheckCount", " checks, ", 103), ("getIgnoredCount", " ignored, ", 104), ("getFilteredOutCount", " filtered out, ", 105)]
